@@ -22,6 +22,6 @@ def seeded(U, rnd, quick):
     return jobs
 
 def check(run):
-    return refcheck.run_ref(run, "C13", ["gem"], (1050, 4000), seeded_fn=seeded,
+    return refcheck.run_ref(run, "C13", ["gem"], (1050, 8000), seeded_fn=seeded,
         rule="pairs of members matching RubyGems' own version pattern (single letter case) within blocks of <=350 members of the TLC-generated universe + seeded versions with 1-6 segments; judged by GemVersion.tla",
         assumptions=["GemVersion.tla transcribes Gem::Version#<=> / canonical_segments of RubyGems 3.x; audited only by RubyGems' own test chains (ASSUMEs evaluated on every run); no ruby on this image"])
